@@ -1,15 +1,17 @@
 \* C02 leg A quick, 3 counter replicas (nested adjust dd(dd(r1,r2),r3)): <= 2 samples each on a
-\* 3-point grid, start {0,2}, increment 5 (13 series per replica, 2 197 inputs), readers with at
-\* most one Seek(1). Leg B gets every input.
+\* 3-point grid whose gaps exceed the penalty (so that all three replicas get their turn), start
+\* {0,3}, increment 5 (13 series per replica, 2 197 inputs), readers with at most one Seek(7).
+\* Scope chosen with the model: the smallest input on which "adjust only the side in use + remember
+\* the handed-out value" (a seeded change) fabricates a reset is [7->0] [13->0] [1->3].
 SPECIFICATION Spec
 CONSTANTS InitPen = 5
-          Grid = {0, 1, 7}
+          Grid = {1, 7, 13}
           NumReps = 3
           MaxLen = 2
           Ctr = TRUE
-          Starts = {0, 2}
+          Starts = {0, 3}
           Incs = {5}
-          Targets = {1}
+          Targets = {7}
           EmitMod = 1
           MaxSeeks = 1
           Kinds = {"f"}
